@@ -215,6 +215,10 @@ package lib
 //@   ensures @C08 @C09: old(trackedReg(r, d)) != nil ==> result == nil && trackedReg(r, d) == old(trackedReg(r, d)) && trackedReg(r, d).Valid == old(trackedReg(r, d).Valid)
 //@   ensures @C09: result != nil ==> trackedReg(r, d) == old(trackedReg(r, d))
 //@   ensures @C07: result != nil ==> !(d.Transport in r.transports)
+// every newly tracked registration gets its OWN expiry record, filed under (registration id, phantom) and pointing
+// back at exactly this phantom and identifier - without it the registration would never expire (C08) and would stay
+// connectable after its lifetime (C02)
+//@   ensures @C08 @C02: result == nil && old(trackedReg(r, d)) == nil ==> concat(idStringOf(d), ipString(d.PhantomIp)) in r.decoysTimeouts && r.decoysTimeouts[concat(idStringOf(d), ipString(d.PhantomIp))].decoy == ipString(d.PhantomIp) && r.decoysTimeouts[concat(idStringOf(d), ipString(d.PhantomIp))].identifier == identOf(r.transports[d.Transport], box(d)) && r.decoysTimeouts[concat(idStringOf(d), ipString(d.PhantomIp))].status == regStatusUnused
 //@   assigns allof(DecoyRegistration.Valid), allof(DecoyRegistration.regCount), allmaps(r.decoys), allmaps(r.decoys[""]), allmaps(r.decoysTimeouts), allof(DecoyTimeout.status), now()
 
 //@ func (r *RegisteredDecoys) totalRegistrations() int
